@@ -13,19 +13,20 @@ set_option linter.unusedVariables false
 
 namespace ALV.C05
 open ALV.C07 LaurentPolynomial
-variable {K : Type} [Field K] [DecidableEq K]
+variable {K : Type} [Field K] [DecidableEq K] (env : ℕ → K → K)
 
 /-- joint induction over a structure and its list of parts -/
 theorem FL.joint {α : Type} {m1 : FL α → Prop} {m2 : FLs α → Prop}
-    (leaf : ∀ f, m1 (.leaf f)) (num : ∀ c, m1 (.num c)) (node : ∀ k ps, m2 ps → m1 (.node k ps))
+    (leaf : ∀ f, m1 (.leaf f)) (num : ∀ c, m1 (.num c)) (other : ∀ i, m1 (.other i))
+    (node : ∀ k ps, m2 ps → m1 (.node k ps))
     (nil : m2 .nil) (cons : ∀ p t, m1 p → m2 t → m2 (.cons p t)) : (∀ o, m1 o) ∧ (∀ ps, m2 ps) :=
-  ⟨fun o => FL.rec (motive_1 := m1) (motive_2 := m2) leaf num node nil cons o,
-   fun ps => FLs.rec (motive_1 := m1) (motive_2 := m2) leaf num node nil cons ps⟩
+  ⟨fun o => FL.rec (motive_1 := m1) (motive_2 := m2) leaf num other node nil cons o,
+   fun ps => FLs.rec (motive_1 := m1) (motive_2 := m2) leaf num other node nil cons ps⟩
 
 /-- induction over the list of parts alone -/
 theorem FLs.induct {α : Type} {m : FLs α → Prop} (nil : m .nil) (cons : ∀ p t, m t → m (.cons p t)) :
     ∀ ps, m ps :=
-  (FL.joint (m1 := fun _ => True) (m2 := m) (fun _ => trivial) (fun _ => trivial) (fun _ _ _ => trivial)
+  (FL.joint (m1 := fun _ => True) (m2 := m) (fun _ => trivial) (fun _ => trivial) (fun _ => trivial) (fun _ _ _ => trivial)
     nil (fun p t _ h => cons p t h)).2
 
 /-! ### what a structure denotes in the field of rational functions -/
@@ -35,6 +36,7 @@ mutual
 noncomputable def FL.val : FL K → Q K
   | .leaf f => C05.val f
   | .num c => ι (C c)
+  | .other _ => 0
   | .node k ps => if k.par then ps.sumVal else ps.prodVal
 noncomputable def FLs.prodVal : FLs K → Q K
   | .nil => 1
@@ -47,12 +49,13 @@ end
 /-! ### lengths -/
 
 theorem applyS_length_aux :
-    (∀ o : FL K, ∀ xs, (o.applyS xs).length = xs.length) ∧
-    (∀ ps : FLs K, (∀ xs, (ps.compS xs).length = xs.length) ∧
-      (∀ xs acc, acc.length = xs.length → (ps.sumS xs acc).length = xs.length)) := by
+    (∀ o : FL K, ∀ xs, (o.applyS env xs).length = xs.length) ∧
+    (∀ ps : FLs K, (∀ xs, (ps.compS env xs).length = xs.length) ∧
+      (∀ xs acc, acc.length = xs.length → (ps.sumS env xs acc).length = xs.length)) := by
   apply FL.joint
   · intro f xs; simp [FL.applyS, apply_length]
   · intro c xs; simp [FL.applyS, scaleSig]
+  · intro i xs; simp [FL.applyS]
   · intro k ps ih xs
     simp only [FL.applyS]
     split
@@ -65,17 +68,17 @@ theorem applyS_length_aux :
     · simp only [FLs.sumS]
       exact iht.2 xs _ (by rw [addSig_length, h, ihp]; simp)
 
-theorem FL.applyS_length (o : FL K) (xs : List K) : (o.applyS xs).length = xs.length :=
-  applyS_length_aux.1 o xs
+theorem FL.applyS_length (o : FL K) (xs : List K) : (o.applyS env xs).length = xs.length :=
+  (applyS_length_aux env).1 o xs
 
 /-! ### output: the call is the composition / sum of the parts' outputs -/
 
 theorem call_eq_aux :
-    (∀ o : FL K, o.All Causal → ∀ xs, o.call xs = .ok (o.applyS xs)) ∧
+    (∀ o : FL K, o.All Causal → ∀ xs, o.call env xs = .ok (o.applyS env xs)) ∧
     (∀ ps : FLs K, ps.All Causal →
-      (∀ xs, ps.casCall xs = .ok (ps.compS xs)) ∧
-      (∀ xs acc, ps.parCall xs (some acc) = .ok (ps.sumS xs acc)) ∧
-      (∀ xs, ps.parCall xs none = .ok (ps.sumS xs (xs.map fun _ => 0)))) := by
+      (∀ xs, ps.casCall env xs = .ok (ps.compS env xs)) ∧
+      (∀ xs acc, ps.parCall env xs (some acc) = .ok (ps.sumS env xs acc)) ∧
+      (∀ xs, ps.parCall env xs none = .ok (ps.sumS env xs (xs.map fun _ => 0)))) := by
   apply FL.joint
   · intro f h xs
     simp only [FL.All] at h
@@ -87,6 +90,7 @@ theorem call_eq_aux :
     rw [es]
     show call s xs = _
     rw [call_eq_apply hs, apply_const hs c vs]
+  · intro i _ xs; rfl
   · intro k ps ih h xs
     simp only [FL.All] at h
     simp only [FL.call, FL.applyS]
@@ -105,7 +109,7 @@ theorem call_eq_aux :
       rw [ihp h.1 xs]
       exact (iht h.2).2.1 xs _
     · simp only [FLs.parCall, FLs.sumS]
-      rw [ihp h.1 xs, addSig_zeros xs _ (FL.applyS_length p xs)]
+      rw [ihp h.1 xs, addSig_zeros xs _ (FL.applyS_length env p xs)]
       exact (iht h.2).2.1 xs _
 
 /-! ### numpoly / denpoly: one equivalent causal filter -/
@@ -126,22 +130,32 @@ theorem mul_pair {f g : ZF K} (hf : Causal f) (hg : Causal g) :
 theorem ofPolys_of_causal {f : ZF K} (hf : Causal f) : ofPolys f.num f.den = .ok f :=
   ofPolys_causal hf.1.1 hf.1.2.1 hf.2.2.1 hf.2.2.2
 
+theorem full_linear_aux :
+    (∀ o : FL K, o.Full → o.linear = true) ∧ (∀ ps : FLs K, ps.Full → ps.linear = true) := by
+  apply FL.joint
+  · intro _ _; rfl
+  · intro _ _; rfl
+  · intro i h; simp only [FL.Full] at h
+  · intro k ps ih h; simp only [FL.Full] at h; simp only [FL.linear]; exact ih h.2
+  · intro _; rfl
+  · intro p t ihp iht h; simp only [FLs.Full] at h; simp only [FLs.linear, ihp h.1, iht h.2, Bool.and_self]
+
 theorem polys_aux :
     (∀ o : FL K, o.All Causal → o.Full →
       ∃ nd, o.polys = .ok nd ∧ Causal (⟨nd.1, nd.2⟩ : ZF K) ∧ val (⟨nd.1, nd.2⟩ : ZF K) = o.val ∧
-        ∀ xs, apply (⟨nd.1, nd.2⟩ : ZF K) xs = o.applyS xs) ∧
+        ∀ xs, apply (⟨nd.1, nd.2⟩ : ZF K) xs = o.applyS env xs) ∧
     (∀ ps : FLs K, ps.All Causal → ps.Full →
       (∀ a : MPoly K × MPoly K, Causal (⟨a.1, a.2⟩ : ZF K) →
         ∃ nd, ps.prodP (some a) = .ok (some nd) ∧ Causal (⟨nd.1, nd.2⟩ : ZF K) ∧
           val (⟨nd.1, nd.2⟩ : ZF K) = val (⟨a.1, a.2⟩ : ZF K) * ps.prodVal ∧
-          ∀ xs, apply (⟨nd.1, nd.2⟩ : ZF K) xs = ps.compS (apply (⟨a.1, a.2⟩ : ZF K) xs)) ∧
+          ∀ xs, apply (⟨nd.1, nd.2⟩ : ZF K) xs = ps.compS env (apply (⟨a.1, a.2⟩ : ZF K) xs)) ∧
       (∀ a : ZF K, Causal a →
         ∃ h, ps.sumF (some a) = .ok (some h) ∧ Causal h ∧ val h = val a + ps.sumVal ∧
-          ∀ xs, apply h xs = ps.sumS xs (apply a xs)) ∧
+          ∀ xs, apply h xs = ps.sumS env xs (apply a xs)) ∧
       (ps ≠ .nil → ∃ nd, ps.prodP none = .ok (some nd) ∧ Causal (⟨nd.1, nd.2⟩ : ZF K) ∧
-          val (⟨nd.1, nd.2⟩ : ZF K) = ps.prodVal ∧ ∀ xs, apply (⟨nd.1, nd.2⟩ : ZF K) xs = ps.compS xs) ∧
+          val (⟨nd.1, nd.2⟩ : ZF K) = ps.prodVal ∧ ∀ xs, apply (⟨nd.1, nd.2⟩ : ZF K) xs = ps.compS env xs) ∧
       (ps ≠ .nil → ∃ h, ps.sumF none = .ok (some h) ∧ Causal h ∧ val h = ps.sumVal ∧
-          ∀ xs, apply h xs = ps.sumS xs (xs.map fun _ => 0))) := by
+          ∀ xs, apply h xs = ps.sumS env xs (xs.map fun _ => 0))) := by
   apply FL.joint
   · intro f h _
     simp only [FL.All] at h
@@ -152,14 +166,19 @@ theorem polys_aux :
     · simp only [FL.polys, castNum]; rw [es]; rfl
     · simp only [FL.val]; exact vs
     · simp only [FL.applyS]; exact apply_const hs c vs xs
+  · intro i _ hf
+    simp only [FL.Full] at hf
   · intro k ps ih h hf
     simp only [FL.All] at h
     simp only [FL.Full] at hf
     obtain ⟨ihp, ihs, ihp0, ihs0⟩ := ih h hf.2
     by_cases hk : k.par = true
     · obtain ⟨s, e, c, v, a⟩ := ihs0 hf.1
+      have hl : ps.linear = true := (full_linear_aux.2 ps) hf.2
       refine ⟨(s.num, s.den), ?_, c, ?_, fun xs => ?_⟩
-      · simp only [FL.polys, if_pos hk]; rw [e]; rfl
+      · simp only [FL.polys, if_pos hk, hl, Bool.not_true, Bool.false_eq_true, if_false]
+        show (ps.sumF none >>= _) = _
+        rw [e]; rfl
       · simp only [FL.val, if_pos hk]; exact v
       · simp only [FL.applyS, if_pos hk]; exact a xs
     · obtain ⟨nd, e, c, v, a⟩ := ihp0 hf.1
@@ -209,7 +228,7 @@ theorem polys_aux :
         rw [ez]; exact er
       · rw [vr, v]; simp only [FLs.sumVal]
       · rw [ar xs]; simp only [FLs.sumS]
-        rw [ap, addSig_zeros xs _ (FL.applyS_length p xs)]
+        rw [ap, addSig_zeros xs _ (FL.applyS_length env p xs)]
 
 /-! ### the constructor and the `list` operations keep the denotation -/
 
@@ -225,17 +244,17 @@ theorem sumVal_append (a b : FLs K) : (a ++ b).sumVal = a.sumVal + b.sumVal := b
   · simp [FLs.append, FLs.sumVal]
   · intro p t ih; simp only [FLs.append, FLs.sumVal, ih, add_assoc]
 
-theorem compS_append (a b : FLs K) (xs : List K) : (a ++ b).compS xs = b.compS (a.compS xs) := by
-  show (FLs.append a b).compS xs = _
+theorem compS_append (a b : FLs K) (xs : List K) : (a ++ b).compS env xs = b.compS env (a.compS env xs) := by
+  show (FLs.append a b).compS env xs = _
   revert xs
-  refine FLs.induct (m := fun a => ∀ xs, (FLs.append a b).compS xs = b.compS (a.compS xs)) ?_ ?_ a
+  refine FLs.induct (m := fun a => ∀ xs, (FLs.append a b).compS env xs = b.compS env (a.compS env xs)) ?_ ?_ a
   · intro xs; rfl
   · intro p t ih xs; simp only [FLs.append, FLs.compS, ih]
 
-theorem sumS_append (a b : FLs K) (xs acc : List K) : (a ++ b).sumS xs acc = b.sumS xs (a.sumS xs acc) := by
-  show (FLs.append a b).sumS xs acc = _
+theorem sumS_append (a b : FLs K) (xs acc : List K) : (a ++ b).sumS env xs acc = b.sumS env xs (a.sumS env xs acc) := by
+  show (FLs.append a b).sumS env xs acc = _
   revert acc
-  refine FLs.induct (m := fun a => ∀ acc, (FLs.append a b).sumS xs acc = b.sumS xs (a.sumS xs acc)) ?_ ?_ a
+  refine FLs.induct (m := fun a => ∀ acc, (FLs.append a b).sumS env xs acc = b.sumS env xs (a.sumS env xs acc)) ?_ ?_ a
   · intro acc; rfl
   · intro p t ih acc; simp only [FLs.append, FLs.sumS, ih]
 
@@ -248,7 +267,7 @@ theorem wrap_val (par : Bool) (n : ℕ) (ps : FLs K) : (wrap par n ps).val = (FL
     cases par <;> simp [FLs.prodVal, FLs.sumVal, ih, FL.val]
 
 theorem wrap_applyS (par : Bool) (n : ℕ) (ps : FLs K) (xs : List K) :
-    (wrap par n ps).applyS xs = (FL.node ⟨par, 0⟩ ps).applyS xs := by
+    (wrap par n ps).applyS env xs = (FL.node ⟨par, 0⟩ ps).applyS env xs := by
   induction n with
   | zero => rfl
   | succ n ih =>
@@ -256,7 +275,7 @@ theorem wrap_applyS (par : Bool) (n : ℕ) (ps : FLs K) (xs : List K) :
     cases par
     · simp [FLs.compS, ih, FL.applyS]
     · simp only [if_true, FLs.sumS, ih]
-      rw [addSig_zeros xs _ (FL.applyS_length _ xs)]
+      rw [addSig_zeros xs _ (FL.applyS_length env _ xs)]
       simp [FL.applyS]
 
 /-! ### `==` / `!=` / `hash` -/
@@ -293,16 +312,25 @@ theorem eq_val_aux :
     cases b with
     | leaf g => simp only [FL.All] at ha hb; simp only [FL.eq] at h; simp only [FL.val]; exact val_of_eq ha hb h
     | num d => simp [FL.eq] at h
+    | other j => simp [FL.eq] at h
     | node k bs => simp [FL.eq] at h
   · intro c b _ _ h
     cases b with
     | leaf g => simp [FL.eq] at h
     | num d => simp only [FL.eq, decide_eq_true_eq] at h; rw [h]
+    | other j => simp [FL.eq] at h
+    | node k bs => simp [FL.eq] at h
+  · intro i b _ _ h
+    cases b with
+    | leaf g => simp [FL.eq] at h
+    | num d => simp [FL.eq] at h
+    | other j => rfl
     | node k bs => simp [FL.eq] at h
   · intro k ps ih b ha hb h
     cases b with
     | leaf g => simp [FL.eq] at h
     | num d => simp [FL.eq] at h
+    | other j => simp [FL.eq] at h
     | node k' bs =>
       simp only [FL.All] at ha hb
       simp only [FL.eq, Bool.and_eq_true, decide_eq_true_eq] at h
@@ -324,9 +352,9 @@ theorem eq_val_aux :
 
 /-- equal objects of causal filters give the same output -/
 theorem eq_applyS_aux :
-    (∀ a : FL K, ∀ b : FL K, a.All Causal → b.All Causal → a.eq b = true → ∀ xs, a.applyS xs = b.applyS xs) ∧
+    (∀ a : FL K, ∀ b : FL K, a.All Causal → b.All Causal → a.eq b = true → ∀ xs, a.applyS env xs = b.applyS env xs) ∧
     (∀ a : FLs K, ∀ b : FLs K, a.All Causal → b.All Causal → a.eq b = true →
-      (∀ xs, a.compS xs = b.compS xs) ∧ (∀ xs acc, a.sumS xs acc = b.sumS xs acc)) := by
+      (∀ xs, a.compS env xs = b.compS env xs) ∧ (∀ xs acc, a.sumS env xs acc = b.sumS env xs acc)) := by
   apply FL.joint
   · intro f b ha hb h xs
     cases b with
@@ -334,16 +362,25 @@ theorem eq_applyS_aux :
       simp only [FL.All] at ha hb; simp only [FL.eq] at h; simp only [FL.applyS]
       exact apply_congr ha hb (val_of_eq ha.1 hb.1 h) xs
     | num d => simp [FL.eq] at h
+    | other j => simp [FL.eq] at h
     | node k bs => simp [FL.eq] at h
   · intro c b _ _ h xs
     cases b with
     | leaf g => simp [FL.eq] at h
     | num d => simp only [FL.eq, decide_eq_true_eq] at h; rw [h]
+    | other j => simp [FL.eq] at h
+    | node k bs => simp [FL.eq] at h
+  · intro i b _ _ h xs
+    cases b with
+    | leaf g => simp [FL.eq] at h
+    | num d => simp [FL.eq] at h
+    | other j => simp only [FL.eq, decide_eq_true_eq] at h; rw [h]
     | node k bs => simp [FL.eq] at h
   · intro k ps ih b ha hb h xs
     cases b with
     | leaf g => simp [FL.eq] at h
     | num d => simp [FL.eq] at h
+    | other j => simp [FL.eq] at h
     | node k' bs =>
       simp only [FL.All] at ha hb
       simp only [FL.eq, Bool.and_eq_true, decide_eq_true_eq] at h
@@ -380,6 +417,8 @@ theorem FL.hash_of_eq (a b : FL K) (ha : a.All fun f => WF f.num ∧ WF f.den) (
     unfold C05.hashKey
     rw [h1, h2]
   · rename_i c d
+    simp only [FL.hash, h]
+  · rename_i i j
     simp only [FL.hash, h]
   · rfl
 
